@@ -16,7 +16,8 @@ THEOREMS = ['Fsic.C20.' + n for n in [
     'lazy_terms_read_somewhere_partial', 'every_edge_is_read_false_at_witness']]
 RULE = ('programs of the C01 grammar (exhaustive small statements under rotating layouts, stress programs with '
         'two-digit lags/leads, parameters/errors with offsets, calls and lazy constructs, sampled programs up to 7 '
-        'equations); for each program the real graph is compared with the model graph and with the term sets of the '
+        'equations, the same programs with inline verbatim fragments from gen_scripts.VERBS in every equation, and with '
+        'series renamed to function-looking names exp/log/max/min/abs/np/…); for each program the real graph is compared with the model graph and with the term sets of the '
         'grammar AST, and at one feasible period EVERY (series, offset) cell within the model\'s lag/lead window is '
         'perturbed on random data: effect on every endogenous variable after one isolated evaluation of its equation '
         'vs the edges, reads observed with recording arrays. distinct = distinct script text; non-trivial = graph '
@@ -34,6 +35,10 @@ META = {
     "note": "Completeness is partial by necessity: Python does not evaluate the branch not taken of `a if c else b` nor the right operand of a decided and/or, so a term there has an edge but is not read (known finding lazy-branch-not-read, Python semantics rather than an fsic defect). Token level: the re-scan of the normalised TEXT by term_re is tied to the token model by the correspondence check only. Trusted: Lean kernel, standard axioms, networkx, the harness.",
     "technique": "Lean 4 proof (parser/atoms lemma by induction on fuel, coincidence by structural induction for every operator interpretation) + differential correspondence check + perturbation oracle with recording arrays"
 }
+
+class _Skip(Exception):
+    pass
+
 
 NODE_RE = re.compile(r'^([A-Za-z_][A-Za-z_0-9]*)\[t(?:([+-])([0-9]+))?\]$')
 
@@ -91,6 +96,19 @@ def stress_programs():
         gs.Program([gs.Equation(V('A'), B('+', V('B'), V('A', -1))), gs.Equation(V('B'), B('+', V('A', 1), V('B', -1)))]),
         gs.Program([gs.Equation(Y, B('+', V('Y', -1), V('Y', -2)))]),
         gs.Program([gs.Equation(Y, B('*', V('is_open', 1), C('np.sqrt', (V('not_X', -1),))))]),
+        # inline verbatim fragments (backticks inside an ordinary equation): a fragment is a constant, the equation
+        # keeps its node, its attribute and the edges of all its terms
+        gs.Program([gs.Equation(V('C'), B('+', B('*', P('alpha'), B('-', V('Y', -1), V('T'))), B('*', gs.Verb('0.25'), V('W', -1))))]),
+        gs.Program([gs.Equation(V('I'), B('*', gs.Verb('np.log(2.0)'), V('K', -1)))]),
+        gs.Program([gs.Equation(Y, B('+', gs.Verb('len(self.span)'), V('X')))]),
+        gs.Program([gs.Equation(Y, B('+', B('*', gs.Verb("len('a  b')"), V('X', -1)), gs.Verb('( 1  +  1 )')))]),
+        gs.Program([gs.Equation(V('C'), B('*', gs.Verb('0.5'), V('Y', -1))), gs.Equation(V('Y'), B('+', V('C'), V('G'))),
+                    gs.Equation(V('K'), B('+', V('K', -1), B('*', gs.Verb("float(len('( x )'))"), E('e', 1))))]),
+        gs.Program([gs.Equation(Y, I(gs.Verb('2.5'), B('>', V('X', 1), gs.Verb('(1 + 1)')), C('max', (V('Z', -2), gs.Verb('1.5')))))]),
+        # series named like functions
+        gs.Program([gs.Equation(Y, B('+', B('*', N('2'), V('exp')), V('log', -1)))]),
+        gs.Program([gs.Equation(V('Z'), B('+', B('*', P('log'), V('X')), E('exp')))]),
+        gs.Program([gs.Equation(V('max'), B('+', V('min', -1), N('1'))), gs.Equation(Y, B('*', V('max', -1), C('exp', (V('np'),))))]),
     ]
     return out
 
@@ -112,10 +130,18 @@ def all_cases(ctx):
     n_big = (4000 if quick else 20000) * ctx.scale
     cfg = gs.GenConfig(max_equations=12, max_depth=4, max_lag=3, max_lead=2)
     cfg_deep = gs.GenConfig(max_equations=12, max_depth=3, max_lag=12, max_lead=10)
+    cfg_lhs = gs.GenConfig(max_equations=6, max_depth=3, max_lag=3, max_lead=2, lhs_offsets=True)
     for i in range(n_big):
-        prog = gs.gen_program(rng, cfg_deep if i % 5 == 0 else cfg)
+        prog = gs.gen_program(rng, cfg_lhs if i % 10 == 7 else cfg_deep if i % 5 == 0 else cfg)
         L = gs.catalogue_layout(names[i // 2 % len(names)], rng) if i % 2 == 0 else gs.random_layout(rng)
         cases.append(mkcase(prog, gs.render(prog, L), L.wrap_rhs, 'sampled', seed))
+        if i % 4 == 1:      # the same program with inline verbatim fragments in every equation
+            prog2 = ec.with_inline_verbatim(rng, prog)
+            cases.append(mkcase(prog2, gs.render(prog2, L), L.wrap_rhs, 'verbatim', seed))
+        if i % 4 == 3:      # ... / with some series renamed to function-looking names the program does not call
+            prog2, used = ec.with_function_names(rng, prog)
+            if used:
+                cases.append(mkcase(prog2, gs.render(prog2, L), L.wrap_rhs, 'fnames', seed))
     return cases
 
 
@@ -165,6 +191,15 @@ def observe_(case, rep):
     t = rng.randrange(lags, n - leads)
     endo = b.endogenous()
     n_edges = 0
+    m0 = b.Model(range(n))      # `self` of verbatim fragments such as len(self.span)
+    shadowed = ec.shadowed_function_roots(prog)
+    frags = [f for st in eqs for f in ec.verbs_of(st.rhs)]
+    if frags:
+        rep.dist['programs-with-inline-verbatim'] += 1
+        for f in set(frags):
+            rep.dist['fragment:' + f] += 1
+    for nm in sorted(set(data0) & set(ec.FUNCTION_LIKE)):
+        rep.dist['series-name:' + nm] += 1
     for st in eqs:
         ycell = (st.lhs.name, st.lhs.offset)
         ynodes = by_cell.get(ycell, [])
@@ -178,16 +213,23 @@ def observe_(case, rep):
             violate('equation-attribute-missing', f'node {y} carries no equation')
         else:
             ref = {k: v.copy() for k, v in data0.items()}
-            ec.run_reference(gs.Program([st]), ref, t)
-            env = {nm: ec.Ser(v.copy(), None) for nm, v in data0.items()}
-            env.update({'t': ec.TPos(t), 'exp': np.exp, 'log': np.log, 'max': max, 'min': min, 'abs': abs, 'np': np})
+            ec.run_reference(gs.Program([st]), ref, t, env={'self': m0, 'len': len, 'float': float, 'np': np})
+            env = {'exp': np.exp, 'log': np.log, 'max': max, 'min': min, 'abs': abs, 'np': np, 'self': m0, 'len': len,
+                   'float': float}
+            env.update({nm: ec.Ser(v.copy(), None) for nm, v in data0.items()})   # a series named `exp` is `exp[t]`
+            env['t'] = ec.TPos(t)
             try:
+                if shadowed:        # e.g. series `np` next to np.log(...): the text is not plain Python
+                    rep.dist['equation-text:skipped-series-shadows-called-function-root'] += 1
+                    raise _Skip()
                 with warnings.catch_warnings(), np.errstate(all='ignore'):
                     warnings.simplefilter('ignore')
-                    exec(eqtext, env)
+                    exec(eqtext.replace('`', ' '), env)     # a verbatim fragment is pasted as it is
                 d = ec.same_arrays(ref, {nm: env[nm].arr for nm in data0})
                 if d:
                     violate('equation-attribute-wrong', f'equation on node {y} ({eqtext!r}) gives {d[0]} on random data')
+            except _Skip:
+                pass
             except Exception as e:  # noqa: BLE001
                 violate('equation-attribute-wrong', f'equation on node {y} ({eqtext!r}) not evaluable: {type(e).__name__}')
         want = {(x.name, x.offset) for x in gs.terms_of(st.rhs)}
@@ -256,6 +298,8 @@ def observe_(case, rep):
 
 
 def observe(case, rep):
+    if 'prog' not in case:
+        return None
     try:
         return observe_(case, rep)
     except Exception as e:  # noqa: BLE001
